@@ -33,13 +33,14 @@ pub struct C08 {
 
 impl C08 {
     pub fn new(tier: Tier) -> C08 {
-        // function words: frozen list ∩ what the current tree classifies as a one-token function word
+        // function words: the fixed (frozen) list, restricted to entries that are one token; whether the
+        // current tree still treats them as function words is exactly what rule 7 observes
         let fw = LANGS
             .iter()
             .map(|l| {
                 frozen_function_words(*l)
                     .iter()
-                    .filter(|w| tok_record(*l, w).map(|t| t.words.len() == 1 && t.words[0].is_function()).unwrap_or(false))
+                    .filter(|w| !w.chars().any(|c| crate::refs::is_separator(c) || c == '\''))
                     .map(|w| w.to_string())
                     .collect()
             })
